@@ -8,10 +8,16 @@ pub mod macros;
 pub mod sym;
 pub mod refm;
 pub mod fields;
+pub mod plain;
+pub mod toygroup;
 pub mod toy_curves;
 
 #[cfg(feature = "c01")]
 pub mod c01_field;
+#[cfg(any(feature = "c03", feature = "c04", feature = "c09", feature = "c10", feature = "c12", feature = "c19"))]
+pub mod c03_curves;
+#[cfg(feature = "c05")]
+pub mod c05_msm;
 #[cfg(feature = "c15")]
 pub mod c15_bigint;
 #[cfg(feature = "c18")]
@@ -23,6 +29,10 @@ pub fn registry() -> std::vec::Vec<(&'static str, fn())> {
     let mut v: std::vec::Vec<(&'static str, fn())> = std::vec::Vec::new();
     #[cfg(feature = "c01")]
     v.extend_from_slice(c01_field::REG);
+    #[cfg(feature = "c03")]
+    v.extend_from_slice(c03_curves::REG);
+    #[cfg(feature = "c05")]
+    v.extend_from_slice(c05_msm::REG);
     #[cfg(feature = "c15")]
     v.extend_from_slice(c15_bigint::REG);
     #[cfg(feature = "c18")]
